@@ -6,38 +6,40 @@ import ShVerif.Proofs.C04Bridge
   C04 — Simplify preserves behaviour.  Property theorems (statements are fixed; helper lemmas live
   in ShVerif/Proofs/C04.lean).  Where the unchanged code violates the property the full statement
   is kept as `def …_statement : Prop`, refuted on a concrete witness (`…_counterexample`) and
-  proved under the exact extra hypothesis (`…_partial`).
+  proved under the exact extra hypothesis (`…_partial`).  `word_sem` and `test_sem` are full
+  theorems since the fixes 16d3528 and 2e8be01.
 -/
 namespace ShVerif.C04
 
 /-! ## Double-quoted literals → single quotes (`simplifyWord`) -/
 
-/-- Full statement: whenever `"lit"` / `$"lit"` is rewritten to `'nv'` / `$'nv'`, the new word denotes
-    the same string.  False for `$"…"` (finding C04-dollar-dq). -/
-def word_sem_statement : Prop :=
-  ∀ (dollar : Bool) (lit nv v : Bytes),
-    rewriteDq lit = some nv → dqValue lit = some v → sqValue dollar nv = v
-
-/-- Holds for plain double quotes: the scanner implements exactly the double-quote escape rules. -/
-theorem word_sem_partial (lit nv v : Bytes)
-    (h : rewriteDq lit = some nv) (hv : dqValue lit = some v) : sqValue false nv = v := by
+/-- Whenever `"lit"` / `$"lit"` is rewritten to `'nv'` / `$'nv'`, the new word denotes the same
+    string — for both kinds of string (since fix 16d3528 a `$"…"` string is never rewritten; before
+    it, `$"a\\n"` became `$'a\n'`, a newline). -/
+theorem word_sem (dollar : Bool) (lit nv v : Bytes)
+    (h : rewriteDq dollar lit = some nv) (hv : dqValue lit = some v) : sqValue dollar nv = v := by
   unfold rewriteDq at h
-  cases hs : dqToSq lit with
-  | none => simp [hs] at h
-  | some nv' =>
-    simp only [hs] at h
-    split at h
-    · simp at h
-    · have e : nv' = nv := by simpa using h
-      rw [← e]
-      exact dqScan_value lit false nv' v hs (by simpa using hv)
+  cases dollar with
+  | true => simp at h
+  | false =>
+    simp only [Bool.false_eq_true, if_false] at h
+    cases hs : dqToSq lit with
+    | none => simp [hs] at h
+    | some nv' =>
+      simp only [hs] at h
+      split at h
+      · simp at h
+      · have e : nv' = nv := by simpa using h
+        rw [← e]
+        exact dqScan_value lit false nv' v hs (by simpa using hv)
 
-/-- `$"a\\n"` becomes `$'a\n'`: the two characters backslash, `n` turn into a newline. -/
-theorem word_sem_counterexample : ¬ word_sem_statement := by
-  intro h
-  have := h true [97, 92, 92, 110] [97, 92, 110] [97, 92, 110] (by decide) (by decide)
-  revert this
-  decide
+/-- `$"…"` is left alone. -/
+theorem word_dollar_kept (lit : Bytes) : rewriteDq true lit = none := rfl
+
+/-- Why it must be: the old rewrite `$"a\\n"` → `$'a\n'` changes the string. -/
+theorem word_dollar_would_differ :
+    dqToSq [97, 92, 92, 110] = some [97, 92, 110] ∧ dqValue [97, 92, 92, 110] = some [97, 92, 110] ∧
+    sqValue true [97, 92, 110] = [97, 10] := by decide
 
 /-- The literal is only rewritten when it cannot change: no `'` in it, and every backslash it has
     is one the double quotes remove. -/
@@ -77,17 +79,19 @@ theorem word_no_single_quote (lit nv : Bytes) (h : dqToSq lit = some nv) : (39 :
 
 /-! ## `[[ ]]` rewrites (`removeParensTest`, `removeNegateTest`, `unquoteParams`, `=` → `==`) -/
 
-/-- Full statement: the simplified test expression evaluates like the original under every
-    semantics of strings, patterns and operators.  False when a quoted parameter expansion does not
-    mean the same without its quotes (finding C04-unquote-param-word). -/
-def test_sem_statement : Prop := ∀ (S : TSem) (x : Test), S.eval (Test.top x) = S.eval x
+/-- The simplified test expression evaluates like the original under every semantics of strings,
+    patterns and operators (`TSem`: an expansion without operator word has one value, an expansion
+    with a word has a quoted and an unquoted value).  Full statement since fix 2e8be01: only
+    expansions without a word are unquoted. -/
+theorem test_sem (S : TSem) (x : Test) : S.eval (Test.top x) = S.eval x := eval_top S x
 
-theorem test_sem_partial (S : TSem) (x : Test) (h : x.QuoteInsensitive S) :
-    S.eval (Test.top x) = S.eval x := eval_top S x h
+/-- `"${a:-'x'}"` keeps its quotes … -/
+theorem test_word_param_kept (p : Nat) : Test.unqW (.quotedW p) = .quotedW p := rfl
 
-/-- A semantics in which parameter 0 is `${a:-'x'}` with `a` unset: quoted it yields `'x'`,
-    unquoted `x`. -/
+/-- … and must: a semantics in which parameter 0 is `${a:-'x'}` with `a` unset (quoted it yields
+    `'x'`, unquoted `x`) tells `[[ "${a:-'x'}" == x ]]` from `[[ ${a:-'x'} == x ]]`. -/
 def quoteSensitiveSem : TSem where
+  sval := fun _ => []
   pval := fun q _ => if q then [39, 120, 39] else [120]
   wval := fun _ => [120]
   wpat := fun _ => ([120], true)
@@ -96,11 +100,9 @@ def quoteSensitiveSem : TSem where
   unOp := fun _ _ => false
   binOp := fun _ _ _ => false
 
-theorem test_sem_counterexample : ¬ test_sem_statement := by
-  intro h
-  have := h quoteSensitiveSem (.bin tsMatch (.quoted 0) (.other 0))
-  revert this
-  decide
+theorem test_word_param_would_differ :
+    quoteSensitiveSem.eval (.bin tsMatch (.quotedW 0) (.other 0)) ≠
+    quoteSensitiveSem.eval (.bin tsMatch (.bareW 0) (.other 0)) := by decide
 
 /-- The quoting rule of `==`, `!=`, `=~`: their right-hand side is never unquoted (it would turn a
     literal into a pattern), every other word operand is. -/
@@ -219,25 +221,24 @@ theorem test_model_agrees (a : List Nat) (v : Bytes) (x : Test) (h : x.WF) :
     (simplify (.mk .testClause a v [x.toNode])).1 = .mk .testClause a v [(Test.top x).toNode] :=
   simplify_testClause a v x h
 
-theorem test_sem_tied (a : List Nat) (v : Bytes) (x : Test) (h : x.WF) (S : TSem)
-    (hq : x.QuoteInsensitive S) :
+theorem test_sem_tied (a : List Nat) (v : Bytes) (x : Test) (h : x.WF) (S : TSem) :
     ∃ x', (simplify (.mk .testClause a v [x.toNode])).1 = .mk .testClause a v [x'.toNode] ∧
       S.eval x' = S.eval x :=
-  ⟨Test.top x, simplify_testClause a v x h, test_sem_partial S x hq⟩
+  ⟨Test.top x, simplify_testClause a v x h, test_sem S x⟩
 
 /-- On a word that is one double-quoted literal the tied model applies `rewriteDq`. -/
 theorem word_model_agrees (a : List Nat) (v : Bytes) (d : Nat) (lit : Bytes) :
     (simplify (dqWord a v d lit)).1 =
-      .mk .word a v [match rewriteDq lit with
+      .mk .word a v [match rewriteDq (d != 0) lit with
        | some nv => .mk .sgl [d] nv []
        | none => .mk .dbl [d] [] [.mk .lit [] lit []]] :=
   simplify_dqWord a v d lit
 
 /-! Non-vacuity -/
-example : rewriteDq [92, 36, 97] = some [36, 97] := by decide          -- "\$a" → '$a'
+example : rewriteDq false [92, 36, 97] = some [36, 97] := by decide          -- "\$a" → '$a'
 example : dqValue [92, 36, 97] = some [36, 97] := by decide
-example : rewriteDq [97, 92, 110] = none := by decide                   -- "a\n" is left alone
-example : rewriteDq [105, 116, 39, 115, 92, 36] = none := by decide     -- "it's\$" is left alone
+example : rewriteDq false [97, 92, 110] = none := by decide                   -- "a\n" is left alone
+example : rewriteDq false [105, 116, 39, 115, 92, 36] = none := by decide     -- "it's\$" is left alone
 example : (Arith.paren (.paren (.binary opAdd (.dollar true [97]) (.paren (.dollar false [98]))))).top
     = .binary opAdd (.lit [97]) (.paren (.lit [98])) := by decide
 example : (Arith.dollar false [49]).top = .dollar false [49] := by decide   -- $1 is not inlined
